@@ -23,7 +23,7 @@ MODULE = 'vgen.keys'
 LIT = {'None': None, 'True': True, 'False': False}
 ATOM_STRINGS = ['', 'a', 'b', '1', 'None', 'True', "a', 'b", "'", "a###b='c", 'x$$$y', '[1]', 'a"b', 'a\\b', '{A}']
 ATOM_INTS = [0, 1, -1, 10]
-ATOM_FLOATS = ['1.0', '0.5', '-0.0', '1e+16']
+ATOM_FLOATS = ['1.0', '0.5', '-0.0', '1e+16', '0.0001234567', '0.0001234568', '0.9999995', '0.9999999']
 SMALL = [('lit', 'None'), ('int', 1), ('str', 'a'), ('str', "a', 'b"), ('str', 'b')]
 DICT_KEYS = sorted(['a', "a': 1, 'b", 'b'])
 QUOTE_KEYS = [k for k in DICT_KEYS if "'" in k]
@@ -45,6 +45,7 @@ OBJECTS = (
     [('auto', ('KAuto', [('a', a), ('b', b)])) for a in (('int', 1), ('int', 2), ('str', 'p'), ('list', [('int', 1), ('int', 2)]),
                                                          ('list', [('int', 2), ('int', 1)]), ('list', [('list', [('int', 1)])]))
      for b in (('int', 2), ('int', 3))]
+    + [('auto', ('KAutoSub', [('a', ('int', 1)), ('b', ('int', 2)), ('c', c)])) for c in (('int', 5), ('int', 6))]
     + [('inst', ('KPlain', [('int', 1)], [])), ('inst', ('KPlain', [('int', 2)], [])),
        ('inst', ('KPlain', [], [('k', ('int', 1))])), ('inst', ('KPlain', [], [('k', ('int', 2))])),
        ('inst', ('KPlain', [('str', 'p')], [('k', ('list', [('int', 1)]))])),
@@ -168,8 +169,15 @@ SPECS = [
          pulls=['b', 'a'], input_kinds={'a': 'json', 'b': 'numpy'}),
     dict(slug='d', cls_name='KdTask', kind='dir', inputs=[dict(ref='a', how='class')], pulls=['a'],
          input_kinds={'a': 'json'}),
+    dict(slug='a2', cls_name='Ka2Task', kind='json'),
+    dict(slug='e', cls_name='KeTask', kind='json', inputs=[dict(ref='a2', how='class'), dict(ref='a', how='class')],
+         pulls=['a', 'a2'], input_kinds={'a': 'json', 'a2': 'json'}),
+    dict(slug='f', cls_name='KfTask', kind='json',
+         params=[dict(name='z', default=1, dpd=True), dict(name='v', default=0, ignore=True)], run_params=['z', 'v']),
+    dict(slug='m', cls_name='KmTask', kind='mem', inputs=[dict(ref='a', how='class')], pulls=['a'], input_kinds={'a': 'json'}),
+    dict(slug='n', cls_name='KnTask', kind='json', inputs=[dict(ref='m', how='class')], pulls=['m'], input_kinds={'m': 'mem'}),
 ]
-TASKNAME = {'a': 'a', 'b': 'g:b', 'c': 'h:g:c', 'd': 'd'}
+TASKNAME = {'a': 'a', 'a2': 'a2', 'b': 'g:b', 'c': 'h:g:c', 'd': 'd', 'e': 'e', 'f': 'f', 'm': 'm', 'n': 'n'}
 
 
 def module():
@@ -182,6 +190,11 @@ def module():
         def __init__(self, a, b=2, verbose=False):
             self.a, self._b, self.verbose = a, b, verbose
 
+    class KAutoSub(KAuto):
+        def __init__(self, a, b=2, c=5, verbose=False):
+            super().__init__(a, b, verbose)
+            self.c = c
+
     class KAutoSet(AutoParameterObject):
         def __init__(self, s):
             self.s = set(s)
@@ -190,13 +203,13 @@ def module():
         def __init__(self, *args, **kwargs):
             self.args, self.kwargs = args, kwargs
 
-    for c in (KAuto, KAutoSet, KPlain):
+    for c in (KAuto, KAutoSub, KAutoSet, KPlain):
         c.__module__ = MODULE
         setattr(mod, c.__name__, c)
     return mod
 
 
-STRINGS = [f'{MODULE}.KaTask', f'{MODULE}.KbTask', f'{MODULE}.KcTask', f'{MODULE}.KdTask']
+STRINGS = [f'{MODULE}.K{t}Task' for t in ('a', 'b', 'c', 'd', 'a2', 'e', 'f', 'm', 'n')]
 
 
 def realise(variant, x, yv, zv, base, work, rng, global_vars=None):
@@ -256,6 +269,14 @@ def realise(variant, x, yv, zv, base, work, rng, global_vars=None):
         r = work / 'root.json'
         r.write_text(json.dumps(root))
         return Config(base, r, **kw).chain(), pre
+    if variant == 'ctxuses':
+        # the value comes from a context that itself uses another context
+        p = work / 'pipe.json'
+        rest = {k: v for k, v in vals.items() if k != 'x'}
+        p.write_text(json.dumps({'tasks': tasks, **rest}))
+        c2 = work / 'ctx2.json'
+        c2.write_text(json.dumps({'unrelated': '{A}-1'}))
+        return Config(base, p, context={'x': x, 'uses': [f'{c2} as zz']}, **kw).chain(), ''
     if variant in ('context', 'ctxfile', 'ctxns'):
         p = work / 'pipe.json'
         rest = {k: v for k, v in vals.items() if k != 'x'}
@@ -272,7 +293,44 @@ def realise(variant, x, yv, zv, base, work, rng, global_vars=None):
     raise ValueError(variant)
 
 
-VARIANTS = ['dict', 'file', 'renamed', 'yaml', 'permuted', 'ns', 'nested', 'twice', 'context', 'ctxfile', 'ctxns']
+def realise_xns(mount, x, base, work):
+    """outer config with task o (input 'xn::a') and cmp (inputs 'p1::a', 'p2::a'), mounted under `mount` (or not)."""
+    from taskchain import Config, Task
+
+    mod = module()
+    if not hasattr(mod, 'KoTask'):
+        def run_o(self) -> dict:
+            return {}
+        for name, ins in (('o', ['xn::a']), ('cmp', ['p1::a', 'p2::a']), ('cmpr', ['p2::a', 'p1::a'])):
+            cls = type(Task)(f'K{name}Task', (Task,), {'Meta': type('Meta', (), {'name': name if name != 'cmpr' else 'cmp',
+                                                                               'input_tasks': ins}),
+                                                     'run': run_o, '__module__': MODULE})
+            setattr(mod, f'K{name}Task', cls)
+    work.mkdir(parents=True, exist_ok=True)
+    (work / 'inner.json').write_text(json.dumps({'tasks': [f'{MODULE}.KaTask'], 'x': x}))
+    (work / 'p.json').write_text(json.dumps({'tasks': [f'{MODULE}.KaTask'], 'x': x}))
+    (work / 'q.json').write_text(json.dumps({'tasks': [f'{MODULE}.KaTask'], 'x': 1}))
+    outs = {}
+    for order, (f1, f2) in (('cmp12', ('p', 'q')), ('cmp21', ('q', 'p'))):
+        outer = work / f'outer_{order}.json'
+        outer.write_text(json.dumps({'tasks': [f'{MODULE}.KoTask', f'{MODULE}.KcmpTask'],
+                                     'uses': [f'{work}/inner.json as xn', f'{work}/{f1}.json as p1', f'{work}/{f2}.json as p2']}))
+        if mount:
+            root = work / f'root_{order}.json'
+            root.write_text(json.dumps({'uses': [f'{outer} as {mount}']}))
+            chain = Config(base, root).chain()
+            pre = mount + '::'
+        else:
+            chain = Config(base, outer).chain()
+            pre = ''
+        outs[order] = chain[pre + 'cmp'].name_for_persistence
+        outs['o'] = chain[pre + 'o'].name_for_persistence
+    return outs
+
+
+XNS_MOUNTS = [None, 'n', 'xn', 'zzxn', 'p1', 'a']
+
+VARIANTS = ['dict', 'file', 'renamed', 'yaml', 'permuted', 'ns', 'nested', 'twice', 'context', 'ctxfile', 'ctxns', 'ctxuses']
 EXT_SIDE = ['.run_info.yaml', '.log']
 
 
@@ -296,6 +354,9 @@ def observe(job):
             bad.append(('scheme', f'repr:{case["repr"][:50]}',
                         f'value {x!r}: representation is {code_repr!r}, the 1.4.0 scheme gives {case["repr"]!r}'))
         want = {t: key_of(case['keys'][t]) for t in case['keys']}
+        if case['va']['t'] == 'auto' and case['va']['cls'] == 'KAutoSub':
+            # the parent class is used first in this process (representations must not depend on what was built before)
+            realise('file', {'class': f'{MODULE}.KAuto', 'kwargs': {'a': 1}}, 5, 1, root / 'warm', root / 'wwarm', rng)
         for vi, variant in enumerate(variants):
             base = root / f'data{vi}'
             chain, pre = realise(variant, x, case['yv'], case['zv'], base, root / f'w{vi}', rng)
@@ -307,6 +368,11 @@ def observe(job):
                     info['code_repr'] = code_repr
                 reldir = Path(*case['dirs'][t])
                 exp_path = base / reldir / (want[t] + case['exts'][t])
+                if case['exts'][t] == 'none':   # in-memory: has a key (it enters downstream keys) but no location
+                    if got != want[t]:
+                        bad.append(('scheme' if variant == 'dict' else 'rewrite', f'rewrite:{variant}:{t}',
+                                    f'[{variant}] key of in-memory {name} is {got}, the scheme gives {want[t]}'))
+                    continue
                 if got != want[t]:
                     cat = 'scheme' if variant == 'dict' else 'rewrite'
                     bad.append((cat, f'{cat}:{variant}:{t}',
@@ -320,6 +386,21 @@ def observe(job):
                     sides = [Path(d.run_info_path).name, Path(d.log_path).name]
                     if sides != [want[t] + e for e in EXT_SIDE]:
                         bad.append(('layout', f'side:{t}', f'side files of {name} are {sides}'))
+        if case.get('xns') and 'ctxuses' in variants and case['va']['t'] not in ('auto', 'inst') and idx % 7 == 0:
+            wantx = {k: key_of(v) for k, v in case['xns'].items()}
+            for mi, mount in enumerate(XNS_MOUNTS):
+                try:
+                    got = realise_xns(mount, x, root / f'xd{mi}', root / f'xw{mi}')
+                except Exception as e:  # noqa
+                    bad.append(('rewrite', 'rewrite:xns-construct:' + ('same-as-inner-namespace' if mount in ('xn', 'p1', 'p2') else str(mount)),
+                                f'mounting a pipeline whose task reads '
+                                f"'xn::a' under namespace {mount!r} fails: {type(e).__name__}: {e}"))
+                    continue
+                for k in wantx:
+                    if got[k] != wantx[k]:
+                        bad.append(('rewrite', f'rewrite:xns:{mount}:{k}', f'[mounted as {mount!r}] key of {k} (inputs from '
+                                    f'namespaces below its own) is {got[k]}, the scheme gives {wantx[k]} (x={x!r})'))
+            info['xns'] = wantx
     except Exception as e:  # noqa
         import traceback
 
@@ -335,6 +416,7 @@ def mc(depth, emit=True):
     cfg = ('CONSTANTS\n' + '\n'.join(f'  {k} <- c_{k}' for k in c) + f'\n  NSmall = {len(SMALL)}\n'
            f'  Emit = {"TRUE" if emit else "FALSE"}\n'
            'INIT Init\nNEXT Next\nINVARIANT IgnoredAbsent\nINVARIANT DefaultAbsent\nINVARIANT ChainHash\n'
+           'INVARIANT NoParamsIsNone\nINVARIANT SwapDiffers\n'
            'INVARIANT EmitCase\n')
     return text, cfg
 
